@@ -227,6 +227,8 @@ structure Chan where
   accept : KeyId → Bool
   rejectAfter : Nat
   keepAlive : Nat
+  /-- `handshakeAttempts * HandshakeBackoff`: a prospective session older than this is given up -/
+  hsTimeout : Nat
   prev : Option Entry := none
   cur : Option Entry := none
   next : Option Entry := none
@@ -236,6 +238,8 @@ structure Chan where
   /-- ephemerals are numbered by a counter the environment supplies at session creation -/
   rekeyPending : Bool := false
   hsPending : Bool := false
+  /-- number of callers blocked in `getOrInit` -/
+  waiting : Nat := 0
 
 /-- `checkKey` -/
 def Chan.checkKey (c : Chan) (k : KeyId) : Bool :=
@@ -254,7 +258,8 @@ def Chan.onReady (c : Chan) (now : Nat) : Chan × Bool :=
       if !c.checkKey k then ({ c with next := none }, false)
       else ({ c with remoteKey := some k, lastReceived := now, remoteTimestamp := se.sess.helloTime,
                      prev := c.cur, cur := some se, next := none,
-                     rekeyPending := c.rekeyPending || se.sess.isInit }, true)
+                     rekeyPending := c.rekeyPending || se.sess.isInit,
+                     waiting := 0 }, true)                 -- `ready` is closed: every waiting caller returns
 
 /-- result of `Channel.Deliver` -/
 structure DRes where
@@ -341,7 +346,9 @@ def Chan.expire (c : Chan) (now : Nat) : Chan :=
     | some e => if e.sess.expiresAt < now ∨ now - c.lastReceived > c.keepAlive then { c with prev := c.cur, cur := none } else c
     | none => c
   match c.next with
-  | some e => if e.sess.expiresAt < now then { c with next := none } else c
+  | some e =>
+    -- expired, or handshaking for longer than the time-out (its creation time is `expiresAt - rejectAfter`)
+    if e.sess.expiresAt < now ∨ now - (e.sess.expiresAt - c.rejectAfter) > c.hsTimeout then { c with next := none } else c
   | none => c
 
 /-- `onRekey` -/
@@ -362,6 +369,25 @@ def Chan.onHandshake (c : Chan) : Chan × List Wire :=
     | some e => if !e.sess.isReady then e.sess.handshake else none
     | none => none)
   ({ c with hsPending := !outs.isEmpty }, outs)
+
+/-- `onHandshake` at time `now`: sessions are expired first; the result says whether the channel starts over
+    (the prospective session was given up and it was our own attempt, or a caller is waiting) -/
+def Chan.onHandshakeAt (c : Chan) (now : Nat) : Chan × List Wire × Bool :=
+  let c' := c.expire now
+  let restart : Bool := match c.next, c'.next with
+    | some n, none => n.sess.isInit || (c'.cur.isNone && decide (c.waiting > 0))
+    | _, _ => false
+  let (c'', outs) := c'.onHandshake
+  (c'', outs, restart)
+
+/-- a caller blocks in `getOrInit` (`Send`/`WaitReady` with a live context); `false` = it returns at once
+    because there is a current session -/
+def Chan.pend (c : Chan) (now : Nat) : Chan × Bool :=
+  let c := c.expire now
+  if c.cur.isSome then (c, false) else ({ c with waiting := c.waiting + 1 }, true)
+
+/-- the context of a blocked caller is cancelled -/
+def Chan.unpend (c : Chan) : Chan := { c with waiting := c.waiting - 1 }
 
 /-- `Channel.Send` with a context that is already done: sends through the current session or reports that it
     would block (after arming the rekey timer if there is no prospective session) -/
